@@ -172,6 +172,43 @@ def validate(c, traces, meta, kind):
         c.sample({'direction': 'C2S', 'kind': kind, 'meta': meta[0], 'trace_head': traces[0][:8]})
 
 
+def apalache_leg(c):
+    """An extra on top of TLC: Apalache discharges an inductive invariant that implies CountBound for ANY number of
+    hits and any clock value (2 threads, four settings). Three runs: Init => IndInv, IndInv /\\ Next => IndInv',
+    and the same induction step with the NonAtomicCheckRecord deviation, which must fail."""
+    import os
+    import shutil
+    import subprocess
+    import time
+    if shutil.which('apalache-mc') is None:
+        c.extra['apalache'] = 'apalache-mc not installed: step skipped'
+        return
+    wd = tlc.scratch('apa_')
+    shutil.copy(os.path.join(tlc.SPEC, 'Limiter.tla'), wd)
+    shutil.copy(os.path.join(tlc.SPEC, 'apalache', 'APA_Limiter.tla'), wd)
+    runs = [('Init => IndInv', ['--cinit=CInit', '--init=Init', '--inv=IndInv', '--length=0'], True),
+            ("IndInv /\\ Next => IndInv'", ['--cinit=CInit', '--init=IndInit', '--inv=IndInv', '--length=1'], True),
+            ('induction step with the deviation (must fail)', ['--cinit=CInitDeviation', '--init=IndInit',
+                                                               '--inv=IndInv', '--length=1'], False)]
+    out = []
+    for label, args, expect_ok in runs:
+        t0 = time.time()
+        p = subprocess.run(['apalache-mc', 'check'] + args + ['--out-dir=' + os.path.join(wd, 'out'), 'APA_Limiter.tla'],
+                           cwd=wd, stdout=subprocess.PIPE, stderr=subprocess.STDOUT, timeout=1800)
+        text = p.stdout.decode('utf-8', 'replace')
+        ok = 'EXITCODE: OK' in text
+        violated = 'EXITCODE: ERROR (12)' in text
+        out.append({'obligation': label, 'ok': ok, 'violated': violated, 'wall_s': round(time.time() - t0, 1)})
+        if not ok and not violated:
+            raise tlc.MachineryError('apalache failed on %s:\n%s' % (label, text[-1500:]))
+        if expect_ok and not ok:
+            c.violation('Apalache: %s does not hold for Limiter' % label,
+                        c.save_replay({'module': 'APA_Limiter', 'obligation': label, 'output': text[-3000:]}))
+        if not expect_ok and ok:
+            raise tlc.MachineryError('apalache: the induction step holds even with the deviation (vacuous invariant)')
+    c.extra['apalache'] = out
+
+
 RACE_CFGS = [
     {'ck': 'int', 'cv': 1, 'pk': 'int', 'pv': 0, 'ws': 0, 'we': 0, 'cm': 'none'},
     {'ck': 'int', 'cv': 2, 'pk': 'int', 'pv': 2, 'ws': 0, 'we': 0, 'cm': 'none'},
@@ -213,6 +250,7 @@ def run(c):
         traces, meta = gate_schedules(c, RACE_CFGS[:2], wd, line_level=False, max_preemptions=3, max_runs=2000,
                                       nthreads=3)
         validate(c, traces, meta, 'gate-schedule-3')
+        apalache_leg(c)
 
 
 if __name__ == '__main__':
